@@ -273,6 +273,8 @@ PROPS["C02"] = dict(
          "half read with recv(), then ANOTHER peer attaches / closes / is killed (waited for on the monitor), then reading continues. "
          "(oversize) 255/256/300 frames via send_multipart and frame-by-frame on PUSH/DEALER/PUB/ROUTER: an error at the sender or a closed "
          "connection, never a panic (caller's task included) and never a truncated delivery; the receiver must still serve a healthy peer. "
+         "(multisender; the c01 binary's layer, shared with C01) 2-3 tasks on clones of one ROUTER / PUSH send to the same peer at once, one "
+         "ROUTER task frame by frame with pauses inside the open message: every message must arrive whole - no foreign frame inside it. "
          "(fbmodel) FrameBatch, the container every multipart message travels in (2 inline slots, then a 255-slot vector over hand-written "
          "unsafe code), driven through its public API by random operation sequences (push/pop/insert/remove/extend/iter_mut/last_mut/clone/"
          "into_iter/from/index, lengths 0..255) and compared with a Vec after every step - natively (600 histories) and, thorough tier, inside "
@@ -282,6 +284,7 @@ PROPS["C02"] = dict(
                  "DEALER senders are paced (15 ms) because DEALER egress ordering is a recorded C01 finding"],
     shards=lambda tier, seed: sharded("c02", _n(tier, 12, 16), _n(tier, 300, 1800))
     + [dict(bin="c02", args=["--only", "fbmodel"], timeout=600, name="c02-fbmodel")]
+    + sharded("c01", 4, 600, extra=["--only", "multisender"], name="c02-multisender")
     + ([miri("c02", "c02-miri-fbmodel-%d" % i, ["--only", "fbmodel", "--histories", 50, "--ops", 40, "--shard", "%d/4" % i],
              miriflags="-Zmiri-disable-isolation -Zmiri-seed=%d" % i) for i in range(4)] if tier == "thorough" else []),
     min_evaluations={"quick": 60, "thorough": 400},
